@@ -17,6 +17,9 @@ def history(rng, k, emu, rate=44100):
 
 def own_ops(rng, k):
     ops = ["%d pc %d %d" % (k, ch, rng.randrange(128)) for ch in (0, 1)]
+    if rng.random() < 0.6:
+        # the chip's LFO (vibrato / tremolo of patches with LFO sensitivity): its speed tables depend on the chip's rate
+        ops += ["%d lfo 1" % k, "%d lfofreq %d" % (k, rng.randrange(8)), "%d pc 1 %d" % (k, rng.choice([11, 17, 18, 20, 21, 28, 29, 30, 31, 35, 40, 41, 42, 43, 44, 48]))]
     for _ in range(rng.choice([6, 10])):
         c = rng.random()
         if c < 0.5:
